@@ -601,10 +601,7 @@ func (fe *FuncEnc) tryInv(env *Env, cl Clause, asInt bool) (t string, ok bool) {
 func (fe *FuncEnc) enterLoop(li *loopInfo, ins []*State) *State {
 	b := li.header
 	pre := fe.merge(ins)
-	var spec *LoopSpec
-	if fe.c != nil {
-		spec = fe.c.Loops[li.ordinal]
-	}
+	spec := fe.loopSpec(li)
 	// values of the header phis on entry
 	entryVals := map[*ssa.Phi]string{}
 	var phis []*ssa.Phi
@@ -762,11 +759,26 @@ func (fe *FuncEnc) enterLoop(li *loopInfo, ins []*State) *State {
 }
 
 // backEdge checks invariant preservation and termination measure.
-func (fe *FuncEnc) backEdge(li *loopInfo, from *ssa.BasicBlock, st *State) {
-	var spec *LoopSpec
-	if fe.c != nil {
-		spec = fe.c.Loops[li.ordinal]
+// loopSpec returns the invariants of a loop: its own plus the function's loopall clauses.
+func (fe *FuncEnc) loopSpec(li *loopInfo) *LoopSpec {
+	if fe.c == nil {
+		return nil
 	}
+	spec := fe.c.Loops[li.ordinal]
+	if len(fe.c.LoopAll) == 0 {
+		return spec
+	}
+	merged := &LoopSpec{}
+	if spec != nil {
+		merged.Invs = append(merged.Invs, spec.Invs...)
+		merged.Decreases = spec.Decreases
+	}
+	merged.Invs = append(merged.Invs, fe.c.LoopAll...)
+	return merged
+}
+
+func (fe *FuncEnc) backEdge(li *loopInfo, from *ssa.BasicBlock, st *State) {
+	spec := fe.loopSpec(li)
 	b := li.header
 	{
 		pos := from.Instrs[len(from.Instrs)-1].Pos()
